@@ -446,7 +446,17 @@ pub fn main_c12(a: Args) -> i32 {
         }
         let dec = decode_table(&s.input, &mut k);
         let (rs, _) = parse_replies(&run.stdout);
-        let rs: Vec<String> = rs.iter().map(|x| k.canon(x)).collect();
+        // a List reply also names leftover staging files (reserved names, not part of the model's tree): drop them
+        let strip_staging = |x: &str| -> String {
+            match x.strip_prefix("Fingerprints:") {
+                Some(rest) => {
+                    let kept: Vec<&str> = rest.split(',').filter(|e| !e.is_empty() && !e.split('=').next().map(|h| String::from_utf8_lossy(&unhex(h)).ends_with(".copia-tmp")).unwrap_or(false)).collect();
+                    format!("Fingerprints:{}", kept.join(","))
+                }
+                None => x.to_string(),
+            }
+        };
+        let rs: Vec<String> = rs.iter().map(|x| k.canon(&strip_staging(x))).collect();
         let exit = match (run.code, run.signal) {
             (Some(0), _) => "EXIT0",
             (Some(124), _) => "TIMEOUT",
@@ -492,6 +502,11 @@ pub fn main_c12(a: Args) -> i32 {
                 if i + 1 < nreq {
                     // tree after request i
                     write_tree(&root, &s.init);
+                    for (p, c) in &s.stale {
+                        let full = format!("{}/{}", root, p);
+                        if let Some(par) = std::path::Path::new(&full).parent() { let _ = std::fs::create_dir_all(par); }
+                        let _ = std::fs::write(&full, c);
+                    }
                     let prefix = s.input[..segs[i].1].to_vec();
                     let _ = run_serve(&copia, &root, &prefix, &[]);
                     let mut fresh = MAGIC.to_vec();
